@@ -192,7 +192,7 @@ fn step(white: bool, kind: u8, mode: u8) {
     assert!(res.is_ok(), "apply of a rules-shaped move must not fail");
     let y = board.verif_raw();
     let want = rf::successor(&x, white, &m);
-    kani::cover!(true, "post-state reached");
+    crate::vcover!(true, "post-state reached");
 
     if mode == M_C03 {
         let mut i = 0;
@@ -572,7 +572,7 @@ fn h3(which: u8) {
             assert!(board.current_position_hash() == h0, "preserve leaves the key alone");
         }
     }
-    kani::cover!(true, "mutator returned");
+    crate::vcover!(true, "mutator returned");
     core::mem::forget(board);
 }
 
@@ -647,7 +647,7 @@ fn hmove(white: bool, kind: u8) {
         "apply toggles exactly the features that changed"
     );
     assert!(board.current_position_hash() == a.hash, "the key is written only through the three toggles");
-    kani::cover!(kani_ghost::count() > 0, "some toggle recorded");
+    crate::vcover!(kani_ghost::count() > 0, "some toggle recorded");
     em.undo(&mut board).unwrap();
     assert!(!kani_ghost::overflowed());
     assert!(!kani_ghost::parity(id), "apply;undo toggles every feature an even number of times");
@@ -849,7 +849,7 @@ fn c02_hist(plies: usize) {
         i += 1;
     }
     if same {
-        kani::cover!(r1.ep != r2.ep, "same placement reached with different en-passant possibilities");
+        crate::vcover!(r1.ep != r2.ep, "same placement reached with different en-passant possibilities");
         assert!(
             (r1.ep == r2.ep) == (b1.current_position_hash() == b2.current_position_hash()),
             "equal placement and rights: keys equal exactly when the en-passant targets are equal"
